@@ -7,11 +7,14 @@ package main
 import (
 	"fmt"
 	"go/types"
+	"os"
 	"runtime/debug"
 	"strings"
 
 	"golang.org/x/tools/go/ssa"
 )
+
+var debugForks = os.Getenv("SYMGO_DEBUG_FORKS") != ""
 
 type decision struct {
 	K byte  // 'b' branch, 'c' choice, 'v' picked value
@@ -79,6 +82,7 @@ type Exec struct {
 	decisions []decision
 	pc        []*Term
 	lits      map[*Term]bool
+	fixed     Model // variables pinned to a constant by the path condition
 	model     Model
 	modelOK   bool
 	vars      []*Term
@@ -116,6 +120,20 @@ func (ex *Exec) known(c *Term) (bool, bool) {
 	}
 	if v, ok := ex.lits[c]; ok {
 		return v, true
+	}
+	if len(ex.fixed) > 0 {
+		if vs, many := c.Vars(); !many {
+			all := true
+			for _, v := range vs {
+				if _, ok := ex.fixed[v]; !ok {
+					all = false
+					break
+				}
+			}
+			if all {
+				return ex.tc.Eval(c, ex.fixed, map[*Term]uint64{}) == 1, true
+			}
+		}
 	}
 	switch c.Op {
 	case OpNot:
@@ -163,6 +181,16 @@ func (ex *Exec) learn(c *Term, val bool) {
 		return
 	}
 	ex.lits[c] = val
+	if c.Op == OpVar {
+		ex.fixed[c] = b2u(val)
+	}
+	if c.Op == OpEq && val {
+		if c.Args[0].Op == OpVar && c.Args[1].IsConst() {
+			ex.fixed[c.Args[0]] = c.Args[1].Val
+		} else if c.Args[1].Op == OpVar && c.Args[0].IsConst() {
+			ex.fixed[c.Args[1]] = c.Args[0].Val
+		}
+	}
 	if c.Op == OpAnd && val {
 		for _, a := range c.Args {
 			ex.learn(a, true)
@@ -264,6 +292,13 @@ func (ex *Exec) branch(cond *Term) bool {
 		tModel = ex.model
 	} else {
 		fModel = ex.model
+	}
+	if debugForks {
+		top := "?"
+		if len(ex.callStack) > 0 {
+			top = ex.callStack[len(ex.callStack)-1].Name()
+		}
+		fmt.Fprintf(os.Stderr, "FORK d=%d in %s t=%v f=%v cond=%s\n", len(ex.decisions), top, tOK, fOK, cond)
 	}
 	switch {
 	case tOK && fOK:
@@ -515,7 +550,7 @@ type pathResult struct {
 
 func (w *Worker) runPath(it *workItem) (res pathResult) {
 	ex := &Exec{w: w, job: it.job, tc: w.tctx, prefix: it.prefix,
-		lits: map[*Term]bool{}, globals: map[*ssa.Global]*Value{}, inited: map[*ssa.Package]bool{},
+		lits: map[*Term]bool{}, fixed: Model{}, globals: map[*ssa.Global]*Value{}, inited: map[*ssa.Package]bool{},
 		cover: map[string]bool{}, assumes: map[string]bool{}, intrinsicsUsed: map[string]bool{},
 		funcs: map[*ssa.Function]bool{}, pool: map[*Value][]Value{}, mutexHeld: map[*Value]bool{}}
 	if it.seed != nil {
